@@ -89,10 +89,13 @@ class Aggregate:
         return sum(self.ops.values())
 
 
-def _trim(events, n=14):
+def _trim(events, n=12):
     out = []
     for e in events[:n]:
-        out.append({k: e[k] for k in ('op', 'args', 'store') if k in e})
+        d = {k: e[k] for k in ('op', 'args', 'store') if k in e}
+        txt = json.dumps(d, default=str)
+        out.append(d if len(txt) < 600 else {'op': e['op'],
+                                             'args': txt[:600] + '...'})
     if len(events) > n:
         out.append('... %d more events' % (len(events) - n))
     return out
